@@ -6,6 +6,7 @@ HERE = os.path.dirname(os.path.dirname(os.path.abspath(__file__)))
 CLAIMED = {
     # id: (technique, level text, level note, design ref)
 }
+EXTRA = {}
 NA = {
     # id: reason
 }
@@ -14,6 +15,8 @@ exec(open(os.path.join(HERE, "tools", "manifest_table.py")).read())
 checks = []
 for pid in sorted(CLAIMED):
     tech, text, note, ref = CLAIMED[pid]
+    if pid in globals().get("EXTRA", {}):
+        tech, text = tech + EXTRA[pid][0], text + EXTRA[pid][1]
     checks.append({
         "property_id": pid,
         "quick_cmd": "./check %s --tier quick" % pid,
